@@ -109,7 +109,7 @@ def gen_term(rng, depth):
 
 def gen_bool(rng, d):
     if d == 0 or rng.random() < 0.3:
-        return ["tag", rng.choice(TAGS[:6])] if rng.random() < 0.85 else ["re", rng.choice(["^n", "e", "y$", "[ab]", "t\\.1", "^x-"])]
+        return ["tag", rng.choice(TAGS[:6])] if rng.random() < 0.85 else ["re", rng.choice(["^n", "e", "y$", "[ab]", "t\\.1", "^x-", "net|x-", "^(net|t)", "^[ab]{1,1}$", "(b)", "c|^a$", "x&y|^b", "t.1,|work"])]
     k = rng.choice(["and", "or", "not"])
     if k == "not":
         return ["not", gen_bool(rng, d - 1)]
